@@ -310,6 +310,17 @@ def make_harness(pair, recipe, backend):
                     for x in any_single_raised])
       return
     for i, o in enumerate(outs):
+      # the signature of subgraph i denotes the same tensors as stand-alone
+      def sig_of(m, si):
+        for sd in (m.signatureDefs or []):
+          if sd.subgraphIndex == si:
+            return ([(t.name, t.tensorIndex) for t in sd.inputs or []],
+                    [(t.name, t.tensorIndex) for t in sd.outputs or []])
+        return None
+      e.check('C19.signature_equals_standalone',
+              sig_of(om.model, i) == sig_of(o.model, 0),
+              info=[f'subgraph {i}', str(sig_of(om.model, i))[:120],
+                    str(sig_of(o.model, 0))[:120]])
       pr, sym = compare_subgraphs(e, om.model, o.model, i, om.input_model)
       e.check('C19.subgraph_equals_standalone_structure', not pr,
               info=[f'subgraph {i}: {x}' for x in pr[:4]])
@@ -419,6 +430,16 @@ def replay(c):
     for i, (_, sm) in enumerate(singles):
       p, sym = compare_subgraphs(None, mm, sm, i, inp)
       pr += [f'subgraph {i}: {x}' for x in p]
+
+      def sig_of(m, si):
+        for sd in (m.signatureDefs or []):
+          if sd.subgraphIndex == si:
+            return ([(t.name, t.tensorIndex) for t in sd.inputs or []],
+                    [(t.name, t.tensorIndex) for t in sd.outputs or []])
+        return None
+      if sig_of(mm, i) != sig_of(sm, 0):
+        pr.append(f'subgraph {i}: signature {sig_of(mm, i)} differs from '
+                  f'stand-alone {sig_of(sm, 0)}')
   if not pr and d.get('concretize') == 'unsat':
     return 'drop', 'spurious', ''
   wc = 'cross-talk: ' + re.sub(r"'[^']*'|\d+", '_', ' | '.join(pr))[:70]
